@@ -45,7 +45,8 @@ def to_case(c):
     return {'kind': 'graph',
             'nodes': [[n.name, n.kind] for n in c.nodes],
             'lines': [[l.driver.index, l.driver_pin, l.reader.index, l.reader_pin] for l in c.lines],
-            'io': [n.index for n in c.io_nodes]}
+            'io': [n.index for n in c.io_nodes],
+            'pins': [[len(n.ins), len(n.outs)] for n in c.nodes]}     # pin lists may end in unconnected (None) pins
 
 
 def build(case):
@@ -56,6 +57,10 @@ def build(case):
         Line(c, (nodes[d], dp), (nodes[r], rp))
     for i in case['io']:
         c.io_nodes.append(nodes[i])
+    for nd, (ni, no) in zip(nodes, case.get('pins', [])):
+        if nd.kind == '__fork__': continue                # fork outputs are squeezed by Line.remove
+        while len(nd.ins) < ni: nd.ins.append(None)
+        while len(nd.outs) < no: nd.outs.append(None)
     return c
 
 
@@ -338,7 +343,11 @@ def gen_names_case(rng, collide=None):
     for nm in names:
         t = rng.random() if which == 's' else 0
         (io if t < 0.5 else dff if t < 0.8 else latch).append(nm)
-    return {'kind': 'names', 'io': io, 'dff': dff, 'latch': latch, 'prefix': prefix, 'which': which}
+    order = [[nm, 'DFF'] for nm in dff] + [[nm, 'LATCH'] for nm in latch]
+    if rng.random() < 0.7:                                 # creation order mixes flip-flops and latches; s_nodes lists flip-flops first
+        rng.shuffle(order)
+        dff = [nm for nm, k in order if k == 'DFF']; latch = [nm for nm, k in order if k == 'LATCH']
+    return {'kind': 'names', 'io': io, 'dff': dff, 'latch': latch, 'prefix': prefix, 'which': which, 'order': order}
 
 
 def build_names(case):
@@ -346,9 +355,8 @@ def build_names(case):
     c = Circuit('names')
     for k, nm in enumerate(case['io']):
         c.io_nodes.append(Node(c, nm, 'input' if k % 3 else '__fork__'))
-    extra = []
-    for nm in case['dff']: extra.append((nm, 'DFF'))
-    for nm in case['latch']: extra.append((nm, 'LATCH'))
+    extra = [tuple(x) for x in case['order']] if 'order' in case else \
+        [(nm, 'DFF') for nm in case['dff']] + [(nm, 'LATCH') for nm in case['latch']]
     # interleave a gate so that node order != s_nodes order
     for k, (nm, kind) in enumerate(extra):
         if k % 2: Node(c, f'__g{k}', 'AND2')
